@@ -71,7 +71,11 @@ def run(tier, wd):
             if keys and rnd.random() < 0.3:
                 envs.append([rnd.choice(keys)])
             for env in envs:
-                groups.append({"rel": "same", "members": [{"si": si, "env": env, "argv": list(line)}, {"si": si + 1, "env": env, "argv": list(line)}]})
+                members = [{"si": si, "env": env, "argv": list(line)}, {"si": si + 1, "env": env, "argv": list(line)}]
+                if rnd.random() < 0.3:
+                    # the same spec-less command after it already ran (same application object)
+                    members.append({"si": si, "env": env, "argv": list(line), "prerun": [[], list(line)]})
+                groups.append({"rel": "same", "members": members})
     # unbounded part (binding C): the automaton the library compiles for the spec-less command is language-equivalent to
     # Seq(Optional(Group(all)), Arg...) - and so is the one compiled from the explicit string
     sv = structeq.check(rep, wd, binpath, progs, specs)
